@@ -18,8 +18,8 @@ from pathlib import Path
 VERIF = Path(__file__).resolve().parent.parent
 LEAN_DIR = VERIF / "lean"
 REPO = Path(os.environ.get("RPFT_REPO", "/repo"))
-EVIDENCE_DIR = VERIF / "evidence"
-REPLAY_DIR = VERIF / "replays"
+EVIDENCE_DIR = Path(os.environ.get("VERIF_EVIDENCE_DIR") or (VERIF / "evidence"))   # scratch runs (seeded copies) must not clobber committed evidence
+REPLAY_DIR = Path(os.environ.get("VERIF_REPLAY_DIR") or (VERIF / "replays"))
 KNOWN_FINDINGS = VERIF / "known_findings.jsonl"
 DRIVER_BIN = LEAN_DIR / ".lake" / "build" / "bin" / "rpft_driver"
 
@@ -138,10 +138,16 @@ def lean_step(prop: str, extra_modules: list[str] | None = None, thorough: bool 
     try:
         try:
             res.tables_changed = extract_tables.write_tables()
+            for f in getattr(extract_tables.write_tables, "failed", []):
+                res.log += f"T1 extraction failed for {f}\n"
         except Exception as e:  # extraction failing = source no longer has the shape the translator reads
             res.ok = False
             res.broken.append(f"T1 table extraction failed: {e!r}")
             res.log += f"extract_tables: {e!r}\n"
+        try:
+            _run([sys.executable, str(VERIF / "gen_root.py")], cwd=VERIF, timeout=60)
+        except Exception as e:  # noqa: BLE001
+            res.log += f"gen_root: {e!r}\n"
         mods = [f"Rpft.Props.{prop}"] + (extra_modules or [])
         cmd = ["lake", "build"] + mods + ["rpft_driver"]
         res.cmds.append("cd lean && " + " ".join(cmd))
@@ -314,6 +320,13 @@ class Check:
         self.violations.append({"what": what, "replay": replay})
 
     def known(self, fid: str, what: str, example=None):
+        """A failure attributed to a listed finding.  Only an OPEN record suppresses: a finding
+        recorded as fixed (or not listed at all) that shows again is a violation."""
+        rec = [f for f in self.findings if f.get("id") == fid and f.get("status") == "open"]
+        if not rec:
+            self.violation(f"{fid} is not an open known finding (fixed or unlisted) but the failure is present: {what}",
+                           {"finding": fid, "example": example})
+            return
         if fid not in self.known_seen:
             self.known_seen[fid] = {"what": what, "example": example}
 
@@ -351,6 +364,9 @@ class Check:
         exit_code = 0
         lines = []
         REPLAY_DIR.mkdir(exist_ok=True)
+        stale = REPLAY_DIR / f"{self.prop}_{self.tier}_{self.seed}.json"
+        if stale.exists():
+            stale.unlink()
         for fid, info in self.known_seen.items():
             lines.append(f"KNOWN-FINDING: property={self.prop} {fid}: {info['what']}")
         viol_count = 0
